@@ -1,4 +1,5 @@
 import NasdaqModel.Lemmas.FramingProgress
+import NasdaqModel.Lemmas.RefineInstances
 /-
 C07, byte level — hostile bytes cannot make the reader spin.
 
@@ -7,10 +8,11 @@ same is proved one level down, for the readers' `deserialize()` on ARBITRARY byt
 common/session.py `Reader`, soup/_reader.py, fix/_reader.py): whatever the buffer holds, a poll either ends the reader (close
 signalled — the session closes, C05), or finds the head of the buffer incomplete *as announced* and leaves it for more bytes, or
 takes a NON-EMPTY frame off the buffer.  So without new data a reader is settled after at most `len(buffer)` polls: it can never
-go on polling an unchanged buffer while the session stays open behind it.  For FIX this rests on the dictionary dispatch
-`Message.Def[get_msg_type(frame)]` rejecting the empty frame (`fixDeserD`; the hypothesis `known [] = false`: no message type is
-the empty string) — the frame a negative BodyLength such as `9=-23` produces; the decided examples at the end show that framing
-alone (`fixDeser`) does hand out that empty frame with the buffer untouched.
+go on polling an unchanged buffer while the session stays open behind it.  For FIX, since /repo 658ee1f (a negative BodyLength
+raises `ValueError`), a cut frame has at least `end+1+7 ≥ 8` bytes whatever the dictionary (`C07_fix_frame_nonempty`,
+`C07_fix_reader_settles_any`); before that repair it rested on the dictionary dispatch `Message.Def[get_msg_type(frame)]`
+rejecting the EMPTY frame a BodyLength such as `9=-23` produced (`C07_fix_frame_consumes`, hypothesis `known [] = false`, still
+true and kept; the pre-repair reader is in `Witness/C04Bytes.lean`).
 All theorems are for every buffer / every reader state / every event history; nothing is bounded.
 -/
 namespace NasdaqModel.Props.C07Framing
@@ -22,8 +24,8 @@ theorem C07_soup_frame_consumes (buf rest : Bytes) (m : Soup.Pkt) (h : soupDeser
     rest.length + 2 ≤ buf.length :=
   soupDeser_consumes h
 
-/-- **FIX: the frame and the rest partition the buffer** for every BodyLength `int()` accepts — negative, zero, signed, padded —
-    because `b[:n] + b[n:] == b` for every integer `n`. -/
+/-- **FIX: the frame and the rest partition the buffer** for every BodyLength the reader accepts — zero, signed `+`, padded —
+    because `b[:n] + b[n:] == b`. -/
 theorem C07_fix_frame_partition (buf f rest : Bytes) (h : fixDeser buf = .ok (some (f, rest))) : f ++ rest = buf :=
   fixDeser_partition h
 
@@ -32,6 +34,16 @@ theorem C07_fix_frame_partition (buf f rest : Bytes) (h : fixDeser buf = .ok (so
 theorem C07_fix_frame_consumes (known : Bytes → Bool) (decode : Bytes → Except Err Unit) (hk : known [] = false)
     (buf f rest : Bytes) (h : fixDeserD known decode buf = .ok (some (f, rest))) : rest.length < buf.length :=
   fixDeserD_consumes known decode hk h
+
+/-- **FIX: a cut frame is never empty — no dictionary needed** (since /repo 658ee1f): BodyLength `n ≥ 0`, so the frame is the
+    first `end+1+n+7 ≥ 8` bytes of the buffer and the buffer gets strictly shorter, with or without the dispatch. -/
+theorem C07_fix_frame_nonempty (buf f rest : Bytes) (h : fixDeser buf = .ok (some (f, rest))) :
+    f ≠ [] ∧ rest.length < buf.length :=
+  Refine.fixDeser_consumes h
+
+theorem C07_fix_frame_consumes_any (known : Bytes → Bool) (decode : Bytes → Except Err Unit)
+    (buf f rest : Bytes) (h : fixDeserD known decode buf = .ok (some (f, rest))) : rest.length < buf.length :=
+  Refine.fixProtoD_consuming' known decode _ _ _ h
 
 /-- **One poll makes progress.**  A reader that is not settled (not stopped, buffer not empty, head of the buffer not waiting for
     more bytes) stops or shortens its buffer at its next poll. -/
@@ -60,6 +72,16 @@ theorem C07_fix_reader_settles (known : Bytes → Bool) (decode : Bytes → Exce
     Settled (fixProtoD known decode) (ticks (fixProtoD known decode) (run (fixProtoD known decode) evs).buf.length
       (run (fixProtoD known decode) evs)) :=
   C07_reader_settles _ (fixProtoD_consuming known decode hk) evs
+
+/-- … for EVERY dictionary and field-level decoder, and for framing alone -/
+theorem C07_fix_reader_settles_any (known : Bytes → Bool) (decode : Bytes → Except Err Unit) (evs : List Ev) :
+    Settled (fixProtoD known decode) (ticks (fixProtoD known decode) (run (fixProtoD known decode) evs).buf.length
+      (run (fixProtoD known decode) evs)) :=
+  C07_reader_settles _ (Refine.fixProtoD_consuming' known decode) evs
+
+theorem C07_fix_framing_settles (evs : List Ev) :
+    Settled fixProto (ticks fixProto (run fixProto evs).buf.length (run fixProto evs)) :=
+  C07_reader_settles _ Refine.fixProto_consuming evs
 
 /-! ### non-vacuity: concrete hostile buffers -/
 
